@@ -7,6 +7,8 @@ seeds="$@"
 for s in $seeds; do
   p=${s%%-*}
   if grep -q '"status": "superseded' seeded/$s/meta.json 2>/dev/null; then echo "$s $p superseded (skipped)"; continue; fi
+  # a seed may name another property's check as the one that decides it
+  c=$(sed -n 's/.*"check": "\(C[0-9]*\)".*/\1/p' seeded/$s/meta.json 2>/dev/null); [ -n "$c" ] && p=$c
   out=$(./tools/run_seed.sh $s $p 2>&1)
   rc=$(echo "$out" | grep -o "^seed $s on $p: exit=[0-9]*" | grep -o "[0-9]*$")
   lab=$(echo "$out" | grep -A1 "^VIOLATION" | grep -v "^VIOLATION\|^--" | head -1 | awk '{print $1" "$2}')
